@@ -125,6 +125,16 @@ class DAGAnalyzer(ASTTemplate):
     def create_dag(cls, ast: Start) -> "DAGAnalyzer":
         dag = cls()
         dag.visit(ast)
+        # A name assigned twice is a redefinition whatever the statement order; check it before
+        # the graph is built (edges only leave the last definer of a name, so a cycle through a
+        # redefined name would otherwise be reported, or not, depending on the order).
+        dag.check_overwriting(
+            [
+                node
+                for node in ast.children
+                if not isinstance(node, (HRuleset, DPRuleset, Operator, ViralPropagationDef))
+            ]
+        )
         dag.load_vertex()
         dag.load_edges()
         try:
